@@ -271,8 +271,9 @@ func (dm *DMap) checkPutConditions(e *env) error {
 		}
 	}
 
-	// Only set the key if it already exists.
-	if e.putConfig.HasXX && !e.fragment.storage.Check(e.hkey) {
+	// Only set the key if it already exists. An expired key that has not been
+	// evicted yet does not exist, for XX and for Expire.
+	if e.putConfig.HasXX || e.putConfig.OnlyUpdateTTL {
 		ttl, err := e.fragment.storage.GetTTL(e.hkey)
 		if err == nil {
 			if isKeyExpired(ttl) {
